@@ -522,6 +522,20 @@ let exec (s : t) (verbose : bool) (f : string array) (obs : string option) : str
     let (((d, b), e), evs) = batch_put (get_db s) (get_batch s) (tok_bytes f.(2)) (tok_bytes f.(3)) in
     s.db <- Some d; s.batch <- Some b;
     (match e with None -> "ok" | Some e -> "err " ^ eerr_name e) ^ events_str evs
+  | "bracers" ->
+    (* two concurrent Puts of one fresh key with one value, then a Delete of it through the batch: put, put, delete *)
+    let pre = tok_bytes f.(2) and n = int_of_string f.(3) and v = tok_bytes f.(4) in
+    let all = ref [] and err = ref None in
+    for i = 0 to n - 1 do
+      let k = pre @ [n_of_int (i lsr 8); n_of_int (i land 255)] in
+      let step r = (match r with (((d, b), e), evs) ->
+        s.db <- Some d; s.batch <- Some b; all := !all @ evs;
+        (match e, !err with Some x, None -> err := Some x | _ -> ())) in
+      step (batch_put (get_db s) (get_batch s) k v);
+      step (batch_put (get_db s) (get_batch s) k v);
+      step (batch_delete (get_db s) (get_batch s) k)
+    done;
+    (match !err with None -> "ok" | Some e -> "err " ^ eerr_name e) ^ events_str !all
   | "bdel" ->
     let (((d, b), e), evs) = batch_delete (get_db s) (get_batch s) (tok_bytes f.(2)) in
     s.db <- Some d; s.batch <- Some b;
